@@ -49,6 +49,11 @@ var layouts = []geom.Layout{geom.XY, geom.XYZ, geom.XYM, geom.XYZM, geom.Layout(
 
 func genPart(t *rapid.T, kind string, l geom.Layout) model.G {
 	o := gen.TreeOpts{Floats: gen.SmallInt | gen.Moderate, MaxParts: 3, MaxPts: 4, PEmpty: 30}
+	// one part in five draws from every bit pattern: NaNs (a coordinate that is entirely
+	// the empty-point marker is a pushed position, not an empty part), infinities, -0
+	if rapid.IntRange(0, 4).Draw(t, "allbits") == 0 {
+		o.Floats = gen.AllBits
+	}
 	if kind == model.GeometryCollection || kind == "" {
 		k := rapid.SampledFrom(append([]string{}, gen.SevenKinds...)).Draw(t, "partkind")
 		return *gen.Leaf(t, &o, k, l)
